@@ -5,7 +5,8 @@
            change / address_index), BIP48 (m / 48' / coin_type' / account' / script_type' / change / address_index,
            script_type 1' = P2SH-P2WSH, 2' = P2WSH).
    lib_*   mirrors bitcoinlib: main.get_key_structure_data, keys.path_expand, HDKey.child_private / child_public /
-           subkey_for_path (one level), Network.wif_prefix, HDKey.wif, and of wallets.py: Wallet.create / _create,
+           subkey_for_path (one level, as repaired by the C03 fixes), Network.wif_prefix, HDKey.wif, and of
+           wallets.py (keys_for_path bulk creation as repaired by fixes/C09-2): Wallet.create / _create,
            _get_account_defaults, keys_for_path (closest stored ancestor, creation of every missing level, bulk
            creation), WalletKey.from_key (row contents, id assignment), new_keys, _get_key, new_account,
            public_master, and the `used` flag as set by utxo_add.  WalletKey.public() is modelled as repaired by
@@ -116,15 +117,19 @@ Fixpoint derive_with (ckd : xkey -> pelem -> option xkey) (x : xkey) (p : list p
 Definition spec_derive := derive_with spec_ckd_priv.
 Definition spec_derive_pub := derive_with spec_ckd_pub.
 
-(* HDKey.child_private(index, hardened): index |= 0x80000000 *)
-Definition lib_child_number (e : pelem) : Z := if snd e then Z.lor (fst e) H31 else fst e.
+(* HDKey.subkey_for_path / child_private(index, hardened) as repaired by the C03 fixes: a marked index must be
+   below 2^31; an unmarked index >= 2^31 is derived hardened; index |= 0x80000000 *)
+Definition lib_hardened (e : pelem) : bool := snd e || (H31 <=? fst e).
+Definition lib_child_number (e : pelem) : Z := if lib_hardened e then Z.lor (fst e) H31 else fst e.
 
 Definition lib_child_private (x : xkey) (e : pelem) : option xkey :=
   match x_priv x with
   | None => None
   | Some k =>
+      if snd e && (H31 <=? fst e) then None
+      else
       let i := lib_child_number e in
-      let data := if snd e then x00 :: be_bytes 32 k ++ be_bytes 4 i else wk_pubser x ++ be_bytes 4 i in
+      let data := if lib_hardened e then x00 :: be_bytes 32 k ++ be_bytes 4 i else wk_pubser x ++ be_bytes 4 i in
       let I := hmac_sha512 (x_chain x) data in
       let il := of_be (firstn 32 I) in
       if secp_n <=? il then None
@@ -134,10 +139,10 @@ Definition lib_child_private (x : xkey) (e : pelem) : option xkey :=
                         x_fpr := wk_fingerprint x; x_child := i |}
   end.
 
-(* HDKey.child_public(index): subkey_for_path drops the hardened marker on this branch; index > 2^31 refused *)
+(* HDKey.child_public(index) through subkey_for_path: a hardened marker or an index >= 2^31 is refused *)
 Definition lib_child_public (x : xkey) (e : pelem) : option xkey :=
   let i := fst e in
-  if H31 <? i then None
+  if snd e || (H31 <=? i) then None
   else
     let I := hmac_sha512 (x_chain x) (wk_pubser x ++ be_bytes 4 i) in
     let il := of_be (firstn 32 I) in
